@@ -154,5 +154,36 @@ fn verif_grid() {
             });
         }
     }
+    // REAL and INTERVAL arguments and keys: one group per distinct key (NaN is one key), keys in ascending order; an argument that is NULL on the
+    // first rows of a group and arrives later is summed like any other
+    g.case("real-keys-with-nan", || {
+        let def = "CREATE TABLE t(line = '^x=(\\\\S+) n=([0-9]+)$', line[1] => x REAL, line[2] => n INT);";
+        let lines = ["x=1.5 n=1", "x=NaN n=2", "x=2.5 n=3", "x=NaN n=4", "x=1.5 n=5", "x=-0.0 n=6", "x=0.0 n=7"];
+        match q(def, "SELECT x, COUNT(*) AS c, SUM(n) AS s, MAX(n) AS hi FROM t GROUP BY x", &lines) {
+            Outcome::Lines(l, _) => { let rows: Vec<J> = l.iter().map(|r| serde_json::from_str(r).unwrap()).collect();
+                let counts: Vec<i64> = rows.iter().map(|r| r["c"].as_i64().unwrap_or(-1)).collect();
+                let mut sorted = counts.clone(); sorted.sort();
+                if rows.len() != 4 || sorted != vec![1, 2, 2, 2] { return Err(format!("GROUP BY a REAL key over {:?} printed {:?}: one group per distinct key is due (0.0 and -0.0 are one key, NaN is one key, 1.5 twice, 2.5)", lines, l)); }
+                let finite: Vec<f64> = rows.iter().filter_map(|r| r["x"].as_f64()).collect();
+                if finite.windows(2).any(|w| w[0] > w[1]) { return Err(format!("the keys are not in ascending order: {:?}", l)); }
+                Ok(()) }
+            other => Err(format!("{:?}", other)) }
+    });
+    g.case("max-of-real-with-nan-any-order", || {
+        let def = "CREATE TABLE t(line = '^x=(\\\\S+)$', line[1] => x REAL);";
+        let mut seen: Option<Vec<String>> = None;
+        for lines in [["x=NaN", "x=1.5", "x=2.5"], ["x=1.5", "x=NaN", "x=2.5"], ["x=2.5", "x=1.5", "x=NaN"]] {
+            match q(def, "SELECT MAX(x) AS hi, MIN(x) AS lo, COUNT(x) AS c FROM t", &lines) { Outcome::Lines(l, _) => { if let Some(prev) = &seen { if *prev != l { return Err(format!("MAX / MIN of the same REAL values in another order: {:?} and {:?}", prev, l)); } } seen = Some(l); }, other => return Err(format!("{:?}", other)) }
+        }
+        Ok(())
+    });
+    g.case("interval-sum-after-null", || {
+        let def = "CREATE TABLE t(line = '^k=(\\\\w+)(?: d=(\\\\S+))?$', line[1] => k TEXT, line[2] => d INTERVAL);";
+        let lines = ["k=a", "k=a d=0:01:00", "k=b d=0:02:00", "k=a d=0:03:00", "k=b"];
+        match q(def, "SELECT k, SUM(d) AS s, COUNT(d) AS c, MAX(d) AS hi FROM t GROUP BY k", &lines) {
+            Outcome::Lines(l, _) => { let want = vec![r#"{"k":"a","s":"00:04:00.000","c":2,"hi":"00:03:00.000"}"#.to_owned(), r#"{"k":"b","s":"00:02:00.000","c":1,"hi":"00:02:00.000"}"#.to_owned()];
+                if l == want { Ok(()) } else { Err(format!("SUM / COUNT / MAX of an INTERVAL argument that is NULL on the first row of group a, over {:?}: printed {:?}, computed from the rows of each group {:?}", lines, l, want)) } }
+            other => Err(format!("{:?}", other)) }
+    });
     g.done();
 }
